@@ -6,7 +6,9 @@ package qnet
 
 import (
 	"context"
+	"errors"
 	"fmt"
+	"math"
 	"sync"
 	"time"
 
@@ -19,6 +21,9 @@ import (
 )
 
 type RpcHandler func(proto.Message, int32) error
+
+// every non-zero 16-bit sequence number is held by an outstanding call
+var ErrRpcSeqExhausted = errors.New("rpc sequence numbers exhausted")
 
 // RPC上下文
 type RpcContext struct {
@@ -112,14 +117,23 @@ func (c *RpcClient) Go() {
 
 func (c *RpcClient) AsyncCall(node fatchoy.NodeID, req proto.Message, cb RpcHandler) error {
 	var rpc = NewRpcContext(node, req, cb)
-	c.makeCall(rpc)
+	if c.makeCall(rpc) == nil {
+		return ErrRpcSeqExhausted
+	}
 	return nil
 }
 
 func (c *RpcClient) Call(node fatchoy.NodeID, req proto.Message) *RpcContext {
 	var rpc = NewRpcContext(node, req, nil)
 	rpc.done = make(chan *RpcContext, 1)
-	rpc = <-c.makeCall(rpc).done
+	if c.makeCall(rpc) == nil {
+		// not sent: complete it at once with an error reply
+		var pkt = packet.Make()
+		pkt.SetErrno(int32(codes.ResourceExhausted))
+		rpc.ack = pkt
+		return rpc
+	}
+	rpc = <-rpc.done
 	return rpc
 }
 
@@ -128,11 +142,18 @@ func (c *RpcClient) makeCall(ctx *RpcContext) *RpcContext {
 	defer c.guard.Unlock()
 
 	ctx.deadline = time.Now().Add(time.Minute) // 1分钟ttl
-	c.counter++
-	if c.counter == 0 {
-		c.counter++
-	}
+	// the next sequence number that is neither 0 nor held by an outstanding call
 	var seq = c.counter
+	for i := 0; ; i++ {
+		seq++
+		if seq != 0 && c.pendingCtx[seq] == nil {
+			break
+		}
+		if i == math.MaxUint16 {
+			return nil // all 65535 numbers are outstanding: refuse instead of overwriting one
+		}
+	}
+	c.counter = seq
 	c.pendingCtx[seq] = ctx
 
 	var reqMsgID = packet.GetMessageIDOf(ctx.req)
